@@ -201,3 +201,9 @@ def rename(RN, mapping):
 def random_renaming(rng, RN, avoid=()):
     names = random_names(rng, len(RN[0]), avoid)
     return rename(RN, dict(zip(RN[0], names)))
+
+
+def with_alphabet(R, syms):
+    """the same automaton over other symbols (e.g. '01': symbols that print like the regexp constants)"""
+    mp = dict(zip(R[1], syms))
+    return fa.make(R[0], [mp[a] for a in R[1]], [(p, (None if a is None else mp[a]), q) for (p, a, q) in R[2]], R[3], R[4])
